@@ -1,6 +1,6 @@
 """C02 engine: builds the linearizability harness against a scratch copy of the
 working tree whose container packages import the scheduling shim instead of sync."""
-import os, shutil, subprocess, tempfile, time
+import hashlib, os, shutil, subprocess, tempfile, time
 
 PKGS = "heap,bstree,trie,queue,stack,cache,list"
 
@@ -21,6 +21,10 @@ def build_shimmed(drv, repo, out_name="C02.test"):
             drv.say("BUILD-FAILED property=C02 (rewrite)\n" + p.stdout)
             return None
         mod, tag = drv.alt_modfile(dst)
+        if os.path.realpath(repo) != "/repo":
+            # a scratch tree (seeded change): its binary must not replace the one built from /repo by a concurrent run
+            base, ext = os.path.splitext(out_name)
+            out_name = "%s-alt-%s%s" % (base, hashlib.sha1(os.path.realpath(repo).encode()).hexdigest()[:10], ext)
         out = os.path.join(drv.BUILD, out_name)
         cmd = [drv.GO, "test", "-c", "-tags", "verif c02shim", "-vet=off", "-modfile", mod, "-o", out, "./conc/lin"]
         p = subprocess.run(cmd, cwd=drv.HARNESS, env=drv.goenv(), stdout=subprocess.PIPE, stderr=subprocess.STDOUT, text=True)
@@ -71,7 +75,17 @@ def run(drv, pid, tier, seed, args):
     code = drv.finish(pid, ev, violations, known, problems, timed_out)
     if not args.get("keep") and code == 0:
         shutil.rmtree(outdir, ignore_errors=True)
+    drop_alt(binary)
     return code
+
+
+def drop_alt(binary):
+    """The binary of a scratch tree is of no use once its run is over."""
+    if binary and "-alt-" in os.path.basename(binary):
+        try:
+            os.remove(binary)
+        except OSError:
+            pass
 
 
 def setup(drv):
